@@ -201,6 +201,78 @@ def scenario(cname, rnd, Stub):
         else:
             out.append(z3.ForAll([a], T.call_val(fv, a) == retv))
         return out
+    if cname == "Option":
+        # a REAL dictionary (templated values, sections, falsy values) and a real Option; the facts about confectioner are measured natively
+        from labrea import Option
+        from confectioner.templating import get_dotted_key, resolve as _resolve
+        from labrea.option import _templated_keys
+        okey = rnd.choice(["A", "S.X", "B"])
+        o = rnd.choice([{}, {"A": 1}, {"A": 0, "B": None}, {"A": "{B}", "B": 2}, {"A": "{NOPE}"}, {"S": {"X": "{A}"}, "A": 5}, {"S": 5}, {"S": {"X": [1, "{A}"]}, "A": False},
+                        {"B": "x{A}y", "A": "v"}, {"A": {"k": "{B}"}}])
+        dkind = rnd.choice(["none", "stub"])
+        inst = Option(okey) if dkind == "none" else Option(okey, stubs["c0"])
+        kt = z3.Const("key!" + okey, T.Key)
+        KEYT = T.key_of_val(z3.Function("fld!Option.key", T.Ev, T.Val)(SELF))
+        allkeys = ["A", "B", "S", "S.X", "NOPE", "S.X.0", "S.X.1", "A.k"]
+        kc = {k: z3.Const("key!" + k, T.Key) for k in allkeys + ["C"]}
+        facts = [z3.Distinct(*cterm.values(), SELF), z3.Distinct(*vals.values()), z3.Distinct(*kc.values()), KEYT == kt,
+                 z3.Function("fld!Option.key", T.Ev, T.Val)(SELF) == T.val_of_key(kt),
+                 z3.Function("fld!Option.domain", T.Ev, T.Val)(SELF) == T.MISSING,
+                 z3.Function("fld!Option.default", T.Ev, T.Val)(SELF) == (T.MISSING if dkind == "none" else T.val_of_ev(cterm["c0"]))]
+
+        def present(k):
+            try:
+                get_dotted_key(k, o)
+                return True
+            except (KeyError, TypeError):
+                return False
+
+        def blocked(k):
+            try:
+                get_dotted_key(k, o)
+            except TypeError:
+                return True
+            except KeyError:
+                return False
+            return False
+        for k in allkeys:
+            facts.append(T.has(O1, kc[k]) == present(k))
+            facts.append(T.blocked(O1, kc[k]) == blocked(k))
+        tables["c0"] = random_table(rnd, "c0", {k: 1 for k in KEYS if present(k)})
+        stubs["c0"].table = tables["c0"]
+        keyconst2 = dict(keyconst)
+        keyconst2.update(kc)
+        facts += facts_for(cterm["c0"], tables["c0"], O1, vals, keyconst2)
+        if present(okey):
+            raw = get_dotted_key(okey, o)
+            g = T.get(O1, kt)
+            try:
+                rv = _resolve(raw, dict(o))
+                vals["resolved"] = z3.Const("cv!resolved", T.Val)
+                facts += [T.resolve_ok(g, O1), T.resolve_val(g, O1) == vals["resolved"], z3.Distinct(*vals.values())]
+                native_val = rv
+            except KeyError as e:
+                x = T.resolve_exc(g, O1)
+                facts += [z3.Not(T.resolve_ok(g, O1)), T.is_cls["KeyError"](x), z3.Not(T.is_cls["TypeError"](x)), z3.Not(T.is_cls["EvaluationError"](x)), T.is_cls["Exception"](x),
+                          z3.Not(T.missing(x))]
+            except TypeError:
+                x = T.resolve_exc(g, O1)
+                facts += [z3.Not(T.resolve_ok(g, O1)), T.is_cls["TypeError"](x), z3.Not(T.is_cls["KeyError"](x)), z3.Not(T.is_cls["EvaluationError"](x)), T.is_cls["Exception"](x),
+                          z3.Not(T.missing(x))]
+            try:
+                tk = _templated_keys(raw, dict(o))
+                S = z3.EmptySet(T.Key)
+                for k in tk:
+                    S = z3.SetAdd(S, kc.get(k, z3.Const("key!" + k, T.Key)))
+                facts += [T.TKok(g, O1), T.TKset(g, O1) == S]
+            except Exception:  # noqa
+                facts += [z3.Not(T.TKok(g, O1)), T.is_cls["KeyNotFoundError"](T.TKexc(g, O1)), T.is_cls["EvaluationError"](T.TKexc(g, O1)), T.missing(T.TKexc(g, O1))]
+            tx = _templated_keys(raw, dict(o), explain=True)
+            S = z3.EmptySet(T.Key)
+            for k in tx:
+                S = z3.SetAdd(S, kc.get(k, z3.Const("key!" + k, T.Key)))
+            facts.append(T.TXset(g, O1) == S)
+        return inst, o, facts, vals
     if cname == "Value":
         from labrea import Value
         inst = Value("val-c0")
@@ -321,10 +393,11 @@ def crosscheck(cname, seed=0, samples=20, repo=None):
             if nat[0] == "exc" and kinds == {"ok"}:
                 mismatches.append((cname, meth, o, "native fails but every consistent symbolic path returns", nat))
             # key sets of keys()/explain() on the consistent returning paths
-            if nat[0] == "ok" and meth in ("keys", "explain") and isinstance(nat[1], set) and nat[1] <= set(KEYS):
-                keyconst = {k: z3.Const("key!" + k, T.Key) for k in KEYS}
+            ALLK = KEYS + ["S", "S.X", "NOPE"]
+            if nat[0] == "ok" and meth in ("keys", "explain") and isinstance(nat[1], set) and nat[1] <= set(ALLK):
+                keyconst = {k: z3.Const("key!" + k, T.Key) for k in ALLK}
                 for p in [p for p in consistent if p.kind == "ok" and p.value[0] == "kset"]:
-                    for k in KEYS:
+                    for k in ALLK:
                         s = z3.Solver()
                         s.set("timeout", 400)
                         s.add(*hyp, *facts, *p.pc, *p.defs)
@@ -344,7 +417,7 @@ def crosscheck(cname, seed=0, samples=20, repo=None):
     return mismatches, checked
 
 
-CLASSES = ["Logged", "PipelineStep", "Iter", "EvaluatableArgs", "Coalesce", "Switch", "Overloaded", "Value", "Apply", "Bind", "EvaluatableKwargs", "CaseWhen"]
+CLASSES = ["Logged", "PipelineStep", "Iter", "EvaluatableArgs", "Coalesce", "Switch", "Overloaded", "Value", "Apply", "Bind", "EvaluatableKwargs", "CaseWhen", "Option"]
 
 if __name__ == "__main__":
     import sys
